@@ -210,6 +210,46 @@ func (c *C06Case) build(env *kit.Env, kick bool) *simRun {
 	return newSim(&c.Cfg, env, kick)
 }
 
+// genSimVM draws a translation stack that can run on a real simulation with
+// checkpointable requesters (no address translator, no control script).
+func genSimVM(r *kit.Rand, tier kit.Tier) *evm.Cfg {
+	v := evm.Gen(r, tier, r.Chance(1, 3))
+	v.UseAT, v.Steps = false, nil
+	v.EventCap = 60000
+
+	for i := range v.Reqs {
+		if len(v.Reqs[i].Ops) > 25 {
+			v.Reqs[i].Ops = v.Reqs[i].Ops[:25]
+		}
+	}
+
+	if v.MMUCache && len(v.TLBs) == 0 {
+		v.Reqs = v.Reqs[:1]
+	}
+
+	return &v
+}
+
+// genSimNet draws a switched network without harness events (send times, stalls).
+func genSimNet(r *kit.Rand) *enoc.Net {
+	n := enoc.GenNet(r, kit.Quick)
+	n.EventCap = 60000
+
+	for i := range n.Devs {
+		n.Devs[i].Stalls = nil
+	}
+
+	for i := range n.Msgs {
+		n.Msgs[i].At = 0
+	}
+
+	if len(n.Msgs) > 40 {
+		n.Msgs = n.Msgs[:40]
+	}
+
+	return &n
+}
+
 func genC06(r *kit.Rand, tier kit.Tier) C06Case {
 	c := C06Case{MaxCuts: 8, Pick: r.Uint64()}
 
@@ -219,41 +259,10 @@ func genC06(r *kit.Rand, tier kit.Tier) C06Case {
 
 	switch r.Intn(5) {
 	case 0:
-		v := evm.Gen(r, tier, r.Chance(1, 3))
-		v.UseAT, v.Steps = false, nil
-		v.EventCap = 60000
-
-		for i := range v.Reqs {
-			if len(v.Reqs[i].Ops) > 25 {
-				v.Reqs[i].Ops = v.Reqs[i].Ops[:25]
-			}
-		}
-
-		if v.MMUCache && len(v.TLBs) == 0 {
-			v.Reqs = v.Reqs[:1]
-		}
-
-		c.VM = &v
-
+		c.VM = genSimVM(r, tier)
 		return c
 	case 1:
-		n := enoc.GenNet(r, kit.Quick)
-		n.EventCap = 60000
-
-		for i := range n.Devs {
-			n.Devs[i].Stalls = nil
-		}
-
-		for i := range n.Msgs {
-			n.Msgs[i].At = 0
-		}
-
-		if len(n.Msgs) > 40 {
-			n.Msgs = n.Msgs[:40]
-		}
-
-		c.Net = &n
-
+		c.Net = genSimNet(r)
 		return c
 	}
 
